@@ -167,9 +167,17 @@ func respellForce(s string) string {
 }
 
 // spellNodeToks: now and then a node's pod CIDR is written another way ("tok~spelling")
-func (g *gen) spellNodeToks(cs string) string {
+func (g *gen) spellNodeToks(cs string, name string) string {
 	if cs == "-" {
 		return cs
+	}
+	// only for a node the controller's cache does not hold in an older version: a cached version without pod CIDRs could
+	// make the controller propose exactly this network in its canonical spelling, and the API server compares the text
+	// (the model compares networks)
+	if g.w.h != nil && g.w.nodeInf != nil {
+		if _, cached, _ := g.w.nodeInf.inf.indexer.GetByKey(name); cached {
+			return cs
+		}
 	}
 	parts := strings.Split(cs, ",")
 	for i, t := range parts {
@@ -998,7 +1006,7 @@ func genHistory(o *Out, rng *rand.Rand, id int, length int, profile string) []st
 		cs := "-"
 		ls := labelPalette[rng.Intn(len(labelPalette))]
 		if rng.Intn(2) == 0 {
-			cs = g.spellNodeToks(g.presetFor(ls))
+			cs = g.spellNodeToks(g.presetFor(ls), n)
 		}
 		g.do(fmt.Sprintf("nodeAdd %s %s %s", n, ls, cs))
 	}
@@ -1031,7 +1039,7 @@ func genHistory(o *Out, rng *rand.Rand, id int, length int, profile string) []st
 			cs := "-"
 			ls := labelPalette[rng.Intn(len(labelPalette))]
 			if rng.Intn(5) == 0 {
-				cs = g.spellNodeToks(g.presetFor(ls))
+				cs = g.spellNodeToks(g.presetFor(ls), n)
 			}
 			g.do(fmt.Sprintf("nodeAdd %s %s %s", n, ls, cs))
 		case x < 14:
